@@ -47,6 +47,15 @@ pub fn control_r9_6_reborrow(fs: &CtlFs) -> u64 {
     r
 }
 
+/// R9.7 control: results that can carry a storage error are flattened away inside a library adaptor
+pub fn control_r9_7_flatten(d: &mut Dev, bufs: &mut [[u8; 4]; 3]) -> usize {
+    let mut n = 0;
+    for got in bufs.iter_mut().map(|b| Read::read(d, b).map_err(Error::<DevErr>::from)).flatten() {
+        n += got;
+    }
+    n
+}
+
 // ---- C13
 pub struct CtlEditor {
     pub dirty: bool,
